@@ -68,6 +68,13 @@ def build_scenario(rng, payloads, attacker_authorized, proto=False):
         # bytes also go to the hash channel (garbage, wrong hashes, the right hash twice)
         payloads = [(ch + 1 if ch >= 1 else ch, bs) for ch, bs in payloads]
         payloads = payloads + [(1, bs) for ch, bs in payloads[:len(payloads) // 4]]
+        # well-formed protocol-hash triggers with a wrong hash and a target chosen by the sender (small entity indices: the
+        # server-side entities of the other clients are among them)
+        for idx in range(0, 12):
+            for gen_flag in (0, 1):
+                ent = varint(idx << 1 | gen_flag) + (varint(0) if gen_flag else [])
+                payloads.append((1, varint(1) + ent + varint(rng.randrange(1, 2**40))))
+                payloads.append((1, varint(2) + ent + ent + varint(rng.randrange(1, 2**40))))
         rng.shuffle(payloads)
     # slot 0 is the attacker: (un)authorize it explicitly right after the generated prologue
     out = []
@@ -200,8 +207,15 @@ def run(tier, seed, replay):
             if p["prop"] in ("C01", "C09") and ("panicked" in p["why"] or "client 1" in p["why"] or "undecodable" in p["why"]):
                 oracle_fail.append(dict(problem=p, script=lines))
                 break
+        mism = None
+        for tok in steps[0].split():
+            if tok.startswith("mismatch="):
+                mism = tok.split("=")[1]
         for i, blk in enumerate(impl):
             for l in blk:
+                if l.startswith("disconnect-request 1") and "auth=proto" in steps[0] and mism != "1":
+                    oracle_fail.append(dict(problem=dict(step_index=i, step=steps[i], why="the server asks the backend to disconnect the well-behaved client (whose protocol matches) "
+                                                         "because of a message sent by another client: %s" % l), script=lines[:i + 1]))
                 if l.startswith("bigalloc"):
                     oracle_fail.append(dict(problem=dict(step_index=i, step=steps[i], why="the server attempted an allocation out of proportion to the message: %s" % l), script=lines[:i + 1]))
     # expected `from ...@0` items per server frame from the verdicts
